@@ -79,6 +79,11 @@ CHECKS["C16"] = dict(engine="ConfigLayers", ref="3 (C16)",
     note="Trusted: TLC; the harness reproduces the three call sites by hand (a change of the call order inside scrut is only seen by the end-to-end part).",
     technique="TLA+ layering model (Merge/Effective), TLC proof of precedence/associativity/identity on all assignments, replay into the real merge functions and the real binary, TLC judgement")
 
+CHECKS["C17"] = dict(engine="ConfigRoundTrip", ref="3 (C17), 8",
+    text="specs/ConfigRoundTrip.tla enumerates configurations by value class: one focus key over all its classes (durations 1ms .. 400 days incl. compound ones, booleans, streams, codes, wait with plain / spaced / YAML-significant paths) against two backgrounds (everything unset / everything set), and one or two environment variables over 16 value classes (quotes, backslashes, colon-space, braces, commas, #, leading / trailing blanks, non-ASCII, things that look like booleans / numbers / null, %@&*), each in both forms (one-line `{...}` written through the real MarkdownTestCaseGenerator, YAML front-matter written through the Serialize implementation incl. shell / prepend / append / total_timeout). Every rendering is parsed back with the real Markdown parser; TLC judges key-wise equality of the canonical text of every key (C17ok) on every record.",
+    note="This is the property where TLA+ contributes least: TLC is the enumerator and the holder of the equality oracle; serde_yaml and humantime are only observed. One concrete value per class.",
+    technique="TLA+ enumeration of configurations by value class, render + parse with the real code, TLC judgement of key-wise equality")
+
 NOT_YET = {
 }
 
@@ -130,6 +135,7 @@ def main():
             {"name": "Escape", "path": "specs/Escape.tla", "serves_properties": ["C11"], "kind_free_text": "byte-level model of escaper and escaped-text reader, MC_Escape (lossless/printable + GEN), EscapeTrace (judgement of real escaper output)"},
             {"name": "Generate", "path": "specs/Generate.tla", "serves_properties": ["C09"], "kind_free_text": "line-class model of command output and its collisions with document syntax; MC_Generate (enumeration), GenerateTrace (judgement of real generate;parse;validate runs)"},
             {"name": "ConfigLayers", "path": "specs/ConfigLayers.tla", "serves_properties": ["C16"], "kind_free_text": "layering model of configuration (Merge, Effective, PrecedenceOK), MC_ConfigLayers, ConfigTrace"},
+            {"name": "ConfigRoundTrip", "path": "specs/ConfigRoundTrip.tla", "serves_properties": ["C17"], "kind_free_text": "value-class enumeration of configurations and the round-trip predicate; MC_ConfigRoundTrip, ConfigRoundTripTrace"},
             {"name": "Rules", "path": "specs/Rules.tla", "serves_properties": ["C04"],
              "kind_free_text": "TLA+ reference semantics of the expectation kinds; MC_Rules (enumeration + sanity), RulesTrace (re-evaluation of implementation answers)"},
         ],
